@@ -239,3 +239,55 @@ Proof.
   exact kind_table_cap.
 Qed.
 Print Assumptions C08_kind_table.
+
+(* The completion wrappers of the public APIs ([done_wrapper], [complete_api] in the model).
+   A request cancelled while queued (the pool hands UV_ECANCELED to its wrapper and its work
+   function never ran) reports exactly the cancel code - UV_ECANCELED, UV_EAI_CANCELED for
+   the name lookups - whatever the caller's request memory held before the call ([garbage]) and
+   whatever the work would have returned; a request that ran reports the work function's own
+   result; every completion unregisters the request exactly once, also uv_queue_work with a
+   NULL after_work_cb (which makes no callback). *)
+Theorem C08_api_completion :
+  forall (a : capi) (garbage wres : Z),
+  snd (complete_api a garbage wres FCancelled) =
+    match a with CWork false => None | _ => Some (cancel_code a) end /\
+  (forall f, f <> FCancelled ->
+     snd (complete_api a garbage wres f) =
+       match a with CWork false => None | CWork true => Some 0%Z | _ => Some wres end) /\
+  (forall f, fst (complete_api a garbage wres f) = 1).
+Proof.
+  intros a garbage wres. split; [exact (api_cancelled_status a garbage wres)|]. split.
+  - intros f. exact (api_normal_status a garbage wres f).
+  - intros f. exact (api_unregister_once a garbage wres f).
+Qed.
+Print Assumptions C08_api_completion.
+
+(* fork(): "the slow-cap / progress theorems hold in the child" is FALSE for the current code.
+   The child's pool is fresh except for the two static counters; a child forked while one slow
+   request runs in a 2-thread parent (slow_io_work_running = 1 = cap) never runs its own slow
+   request: it stays Queued, every thread is blocked, verdict 2. *)
+Theorem C08_fork_child_progress_refuted :
+  exists c progs sched progs' sched',
+    let parent := run c (init c progs) sched in
+    let child := run c (fork_child c parent progs') sched' in
+    1 <= c_n c /\ r_st (reqs child 0) = Queued /\ verdict c child = 2%Z /\
+    (forall t, t < c_loops c + c_n c -> step c child t 0 = None).
+Proof.
+  exists cfgf, progf, sched_parent, progf, sched_child.
+  destruct fork_child_stuck as (_ & H2 & H3 & H4). cbv zeta. split; [cbn; lia|]. split; [exact H2|].
+  split; [exact H3 | exact H4].
+Qed.
+Print Assumptions C08_fork_child_progress_refuted.
+
+(* What does hold: with both counters 0 at the time of the fork the child state is the initial
+   state, so every theorem above (all stated from [init c progs]) holds in the child; with the
+   counters reset by the child (notes/C08_fix_fork_counters.diff, [fork_child_fixed]) this is
+   so for every parent state. *)
+Theorem C08_fork_child_partial :
+  forall (c : config) (parent : state) (progs : list (list op)),
+  (running parent = 0 -> idle parent = 0 -> fork_child c parent progs = init c progs) /\
+  fork_child_fixed c parent progs = init c progs.
+Proof.
+  intros c parent progs. split; [exact (fork_child_counters_zero c parent progs) | reflexivity].
+Qed.
+Print Assumptions C08_fork_child_partial.
